@@ -699,7 +699,9 @@ mod expression_parser {
     expr
   }
 
-  fn leftmost_expression_common_mut(e: &mut expr::E<()>) -> &mut expr::ExpressionCommon<()> {
+  pub(super) fn leftmost_expression_common_mut(
+    e: &mut expr::E<()>,
+  ) -> &mut expr::ExpressionCommon<()> {
     match e {
       expr::E::FieldAccess(e) => leftmost_expression_common_mut(&mut e.object),
       expr::E::MethodAccess(e) => leftmost_expression_common_mut(&mut e.object),
@@ -2210,8 +2212,8 @@ mod utils {
   }
 
   /// A parenthesised expression is unwrapped by the parser. The comments written after `(` and
-  /// before `)` stay with the inner expression: `( /* a */ e /* b */ )` keeps `a`, the comments of
-  /// `e` and `b`, in this order, in front of `e`.
+  /// before `)` stay with the inner expression, in front of its first token (where they are printed
+  /// and read back): `( /* a */ /* own */ x + 1 /* b */ )` keeps `a`, `own`, `b` in this order.
   pub(super) fn keep_parenthesis_comments(
     parser: &mut super::SourceParser,
     mut expression: samlang_ast::source::expr::E<()>,
@@ -2221,7 +2223,7 @@ mod utils {
     if start_comments.is_empty() && end_comments.is_empty() {
       return expression;
     }
-    let common = expression.common_mut();
+    let common = super::expression_parser::leftmost_expression_common_mut(&mut expression);
     start_comments.extend(parser.comments_store.get(common.associated_comments).iter().copied());
     start_comments.append(&mut end_comments);
     match parser.comments_store.get_mut(common.associated_comments) {
